@@ -86,7 +86,8 @@ class PcaClassifier:
         else:
             _input = self._image
         _flat_images = _input.reshape(self._n_image, -1)
-        return _flat_images
+        # the out-of-core SVD needs each image (row) in a single chunk
+        return _flat_images.rechunk({1: -1})
 
     def get_transform(self, labels: Iterable[int] | None = None) -> NDArray[np.float32]:
         """
